@@ -22,8 +22,8 @@ rp = os.path.join(hd, "RESULTS.json")
 results = json.load(open(rp)) if os.path.exists(rp) else {}
 for hid in ids:
     d = os.path.join(hd, hid)
-    patch = os.path.join(d, "patch.rebased.diff")      # the same refactoring re-expressed on the current tree (after fix: commits)
-    if not os.path.exists(patch):
+    patch = os.path.join(d, "patch.rebased.diff")      # the same restructuring re-expressed on the current tree (after fix: commits)
+    if not os.path.exists(patch) or sh("git -C %s apply --check %s" % (REPO, patch)).returncode != 0:
         patch = os.path.join(d, "patch.diff")
     files = set(re.findall(r"^\+\+\+ b/(\S+)", open(patch).read(), re.M))
     props = sorted(p for p, ms in mirrors.items() if any(m[0] in files for m in ms))
